@@ -56,3 +56,17 @@ Theorem C09_inputs_and_parties_from_the_program : forall st fs0 outs m fs',
         \/ exists k r n doc, lookup k st = Some r /\ r_node r = AInput n (p_name p) doc).
 Proof. exact compile_inputs_parties. Qed.
 Print Assumptions C09_inputs_and_parties_from_the_program.
+
+(* nothing unneeded: every operation of the program table is reachable from an output, and every operation of a
+   function table from that function's return operation, through operand references of the operation store —
+   for ANY store and output list *)
+From NadaV.Proofs Require Import C09Proofs.
+Theorem C09_nothing_unneeded : forall st fs0 outs m fs',
+  compile st fs0 outs = Ok (m, fs') ->
+  (forall k, In k (keys (m_ops m)) -> needed st (map co_id outs) k)
+  /\ Forall (fun f => forall k, In k (keys (f_ops f)) -> needed st [f_ret f] k) (m_functions m).
+Proof.
+  intros st fs0 outs m fs' H. split;
+    [eapply compile_nothing_unneeded; eauto | eapply compile_functions_nothing_unneeded; eauto].
+Qed.
+Print Assumptions C09_nothing_unneeded.
